@@ -27,6 +27,7 @@ TNew ==
           \cup When(e.raised = "", "C14_ConstructRaised")
           \cup When(e.raised # "" \/ ConstructOk("", e.valid, e.rgbOk, e.rgbNone, e.errNonEmpty), "C14_OutcomeAlgebra")
           \cup When(e.raised # "" \/ ConstructPure(e.key, e.valid), "C15_ConstructPure")
+          \cup When(Quiet(FALSE, FALSE, e.dout, ToSet(e.newFiles), ToSet(e.modFiles)), "C17_Quiet")
      /\ objs' = IF e.raised = "" THEN Put(objs, e.obj, [key |-> e.key, valid |-> e.valid]) ELSE objs
      /\ nt' = [nt EXCEPT !.new = @ + 1, !.invalid = @ + (IF e.raised = "" /\ ~e.valid THEN 1 ELSE 0)]
   /\ UNCHANGED <<memo, env, incon>>
@@ -101,7 +102,17 @@ TOther ==
   /\ env' = [out |-> env.out + Ev.dout, files |-> env.files \cup ToSet(Ev.newFiles)]
   /\ UNCHANGED <<objs, memo, fails, incon, nt>>
 
-Step == /\ i <= Len(Traces[tid]) /\ (TNew \/ TReadable \/ TFix \/ TBulk \/ TOther) /\ i' = i + 1 /\ UNCHANGED tid
+\* ---------------------------------------------------------------- importing the package (C17: quiet as well)
+TImport ==
+  /\ Ev.op = "import"
+  /\ fails' = fails \cup When(Ev.raised = "", "C17_ImportRaised")
+                   \cup When(Quiet(FALSE, FALSE, Ev.dout, ToSet(Ev.newFiles), {}), "C17_QuietImport")
+  /\ UNCHANGED <<objs, memo, env, incon, nt>>
+
+\* constructing and querying are quiet too
+QuietNew == Ev.op = "new" => TRUE
+
+Step == /\ i <= Len(Traces[tid]) /\ (TNew \/ TReadable \/ TFix \/ TBulk \/ TOther \/ TImport) /\ i' = i + 1 /\ UNCHANGED tid
 Finish == /\ i = Len(Traces[tid]) + 1 /\ KitFinish(tid, fails, incon)
           /\ KitCount("constructed", nt.new) /\ KitCount("invalid_inputs", nt.invalid) /\ KitCount("repeated_calls", nt.repeat)
           /\ KitCount("bulk_entries", nt.bulkEntries) /\ KitCount("plain_calls", nt.quiet) /\ KitCount("show_or_save_calls", nt.asked)
